@@ -35,6 +35,7 @@ def run(ctx, rep):
         lock_order(rep, pg, fns, sfx)
         fresh_guard(rep, pg, fns, sfx)
         lock_scope(rep, pg, fns, sfx)
+        recheck(rep, pg, fns, sfx)
         no_unsafe(rep, pg, fns, sfx)
     rep.floor("database functions", len([f for f in prog.fns.values() if f.crate == "jiff" and f.path.startswith(MODULES)]), 40)
 
@@ -295,3 +296,50 @@ def no_unsafe(rep, prog, fns, sfx, rule="NO-UNSAFE"):
         rep.violation(rule, "unsafe fns" + sfx, "unsafe in database modules: fns %s, operations %s" % (bad, ops[:6]), "src/tz/db")
     else:
         rep.ok(rule, "unsafe fns" + sfx, how="%d functions, none unsafe, no unsafe operation" % len(fns), nontrivial=False)
+
+
+def recheck(rep, prog, fns, sfx, rule="RECHECK"):
+    """double-checked lookups: a miss under the read lock proves nothing once the lock is released"""
+    rep.rule(rule, "in every lookup that first searches under the read lock and then takes the write lock on the same field, each value "
+                   "returned after the write lock was acquired is preceded, under that write lock, by a fresh search of the protected "
+                   "collection (get / get_zone_index / binary search): another thread may have refreshed or filled it between the two "
+                   "locks, so reporting the stale miss makes the answer depend on other threads' lookups")
+    n = 0
+    for f in fns:
+        if f.is_closure:
+            continue
+        T = None
+        acq = [(bi, t) for bi, t in lock_calls(f)]
+        reads = [(bi, t) for bi, t in acq if t.get("path", "").endswith("::read")]
+        writes = [(bi, t) for bi, t in acq if t.get("path", "").endswith("::write")]
+        if not reads or not writes:
+            continue
+        T = Terms(f)
+        cfg = mir.CFG(f)
+        rnames = {lock_name(T, bi, t) for bi, t in reads}
+        for (bw, tw) in writes:
+            if lock_name(T, bw, tw) not in rnames:
+                continue
+            n += 1
+            key = "%s write-locked returns%s" % (f.path.split("::")[-2] + "::" + f.path.split("::")[-1], sfx)
+            searches = [bi for bi, t in mir.iter_calls(f)
+                        if cfg.dominates(bw, bi) and bi != bw and (
+                            t.get("path", "").rsplit("::", 1)[-1] in ("get", "get_zone_index", "binary_search", "binary_search_by", "binary_search_by_key")
+                            and ("Cached" in t.get("path", "") or "Names" in t.get("path", "") or "slice" in t.get("path", "")))]
+            bad = []
+            for bi, b in enumerate(f.blocks):
+                if not cfg.dominates(bw, bi) or bi == bw:
+                    continue
+                assigns = any(s["s"] == "=" and s["lhs"]["l"] == 0 for s in b["st"]) or \
+                    (b["term"]["t"] == "call" and (b["term"].get("dest") or {}).get("l") == 0)
+                if not assigns:
+                    continue
+                if not any(sb == bi or cfg.dominates(sb, bi) for sb in searches):
+                    ln = next((s.get("ln") for s in b["st"] if s["s"] == "=" and s["lhs"]["l"] == 0), None) or (b["term"].get("span") or {}).get("line")
+                    bad.append(ln)
+            if bad:
+                rep.violation(rule, key, "after taking the write lock, the function returns at line(s) %s without searching the protected "
+                              "collection again" % sorted(set(x for x in bad if x)), f.loc())
+            else:
+                rep.ok(rule, key, how="%d search(es) under the write lock dominate every return" % len(searches), loc=f.loc())
+    rep.floor(rule + " double-checked lookups" + sfx, n, 2)
